@@ -38,26 +38,30 @@ Proof. exact decided_irrelevant. Qed.
 Print Assumptions C06_irrelevant_when_decided.
 
 (* ---- refutations of the full statement ---- *)
-Definition wh : hier :=   (* 0 object, 1 A, 2 B, 3 C(A,B) *)
-  {| h_supers := [[0]; [0; 1]; [0; 2]; [0; 1; 2; 3]]; h_meths := []; h_preds := []; h_fresh := [0] |}.
+Definition wh : hier :=   (* 0 object, 1 A, 2 B, 3 C(A,B), 4 D *)
+  {| h_supers := [[0]; [0; 1]; [0; 2]; [0; 1; 2; 3]; [0; 4]]; h_meths := []; h_preds := []; h_fresh := [0] |}.
 Definition lk := lookup (hsub wh) (hhasm wh) (hchk wh) (hfresh wh).
 
-(* KF-06: f(x: A | B) and f(x: B | A): whichever type is visited first is found "more specific" *)
-Definition f1 := mkMeth 0 [Uni [Cls 1; Cls 2]] [] 1 [] 0 0.
-Definition f2 := mkMeth 1 [Uni [Cls 2; Cls 1]] [] 1 [] 0 0.
+(* KF-06 / KF-23: f(x: A | B), f(x: A | C), f(x: A | D) called with a C(A, B): overlapping unions compare asymmetrically
+   (the left operand's hook answers first), so which method wins -- or whether graphlib reports a cycle -- depends on
+   the order in which the registered types are visited *)
+Definition g1 := mkMeth 0 [Uni [Cls 1; Cls 2]] [] 1 [] 0 0.
+Definition g2 := mkMeth 1 [Uni [Cls 1; Cls 3]] [] 1 [] 0 0.
+Definition g3 := mkMeth 2 [Uni [Cls 1; Cls 4]] [] 1 [] 0 0.
 Theorem C06_order_refuted_union :
-  exists ms k, lk ms k = ORun 0 /\ lk (rev ms) k = ORun 1.
-Proof. exists [f1; f2], (mkKey [Cls 1] []). vm_compute. split; reflexivity. Qed.
+  exists ms ms' k, Permutation ms ms' /\ lk ms k = ORun 1 /\ lk ms' k = ORun 2.
+Proof.
+  exists [g1; g2; g3], [g3; g1; g2], (mkKey [Cls 3] []). split.
+  - apply Permutation_sym. apply (Permutation_cons_app [g1; g2] [] g3). reflexivity.
+  - vm_compute. split; reflexivity.
+Qed.
 Print Assumptions C06_order_refuted_union.
 
-(* KF-23: f(x: A | C), f(x: B | C), f(x: C | A) called with a C: CycleError in one iteration order, a method in another *)
-Definition g1 := mkMeth 0 [Uni [Cls 1; Cls 3]] [] 1 [] 0 0.
-Definition g2 := mkMeth 1 [Uni [Cls 2; Cls 3]] [] 1 [] 0 0.
-Definition g3 := mkMeth 2 [Uni [Cls 3; Cls 1]] [] 1 [] 0 0.
 Theorem C06_order_refuted_cycle :
-  exists ms ms' k, Permutation ms ms' /\ lk ms k = OCycle /\ lk ms' k = ORun 0.
+  exists ms ms' k, Permutation ms ms' /\ lk ms k = OCycle /\ lk ms' k = ORun 1.
 Proof.
-  exists [g1; g2; g3], [g2; g1; g3], (mkKey [Cls 3] []). split; [apply perm_swap|]. vm_compute. split; reflexivity.
+  exists [g1; g3; g2], [g1; g2; g3], (mkKey [Cls 3] []). split; [apply perm_skip; apply perm_swap|].
+  vm_compute. split; reflexivity.
 Qed.
 Print Assumptions C06_order_refuted_cycle.
 
